@@ -1,5 +1,6 @@
 import Pycoin.Proofs.AddressLemmas
 import Pycoin.Proofs.RealEnv
+import Pycoin.Model.TxInAddr
 /-!
 C08 — addresses and output scripts are in one-to-one correspondence on every network.
 
@@ -650,5 +651,20 @@ theorem C08_registry_sound (t : String) (n : Network) (h : networkForNetcode t =
   have hp := List.find?_some h
   simp only [Bool.and_eq_true, decide_eq_true_eq] at hp
   exact ⟨hm, hp.2, hp.1⟩
+
+/-- C08.txin_address: the address `TxIn.address` reports is the address of the key the input's script reveals
+(`key.address()` of that SEC on that network); an input that reveals none reports `(unknown)`, the coinbase input
+`(coinbase)` — never another key's address -/
+theorem C08_txin_address (env : Env) (net : Network) (script : Bytes) :
+    (∀ sec, txInPublicKeySec false script = .ok (some sec) → sec ≠ [] →
+      txInAddress env net false script = keyAddress env net sec) ∧
+    (txInPublicKeySec false script = .ok none → txInAddress env net false script = .ok (some "(unknown)")) ∧
+    txInAddress env net true script = .ok (some "(coinbase)") ∧ txInPublicKeySec true script = .ok none := by
+  refine ⟨?_, ?_, rfl, rfl⟩
+  · intro sec h hne
+    have : sec.isEmpty = false := by cases sec <;> simp_all
+    simp [txInAddress, h, this]
+  · intro h
+    simp [txInAddress, h]
 
 end Pycoin.Addr
